@@ -242,17 +242,74 @@ def token_groups(trace):
     return groups
 
 
+def token_procs(trace):
+    """The js.* primitives of each redo process, in the wire format of `tokloop-replay` (no pid field).
+    Returns dict pid -> ("top"|"sub", [events])."""
+    procs = {}
+    for pid, ts, name, a in trace:
+        if not name.startswith("js."):
+            continue
+        k = name[3:]
+        if k == "setup":
+            procs[pid] = ("top" if a[1] == "own" else "sub", [])
+            continue
+        if pid not in procs:
+            continue
+        ev = procs[pid][1]
+        if k == "create":
+            ev.append("cr,%s,%s,%s" % (a[0], a[1], a[2]))
+        elif k == "destroy":
+            ev.append("de,%s,%s,%s" % (a[0], a[1], a[2]))
+        elif k == "release":
+            ev.append("rl,%s,%s,%s,%s" % (a[0], a[1], a[2], a[3]))
+        elif k == "read":
+            ev.append("rd,%s,%s" % (a[0], a[1]))
+        elif k == "eat":
+            ev.append("ea,%s,%s" % (a[0], a[1]))
+        elif k == "cheat":
+            ev.append("ct,%s,%s,%s" % (a[0], a[1], a[2]))
+        elif k == "start":
+            ev.append("st,%s,%s" % (a[1], a[2]))
+        elif k == "childexit":
+            ev.append("cx,%s,%s" % (a[1], a[2]))
+        elif k == "reaped":
+            ev.append("rp")
+        elif k == "forcereturn":
+            ev.append("fr,%s" % a[0])
+        elif k == "cheatwrite":
+            ev.append("cw,%s" % a[0])
+        elif k == "selftest":
+            ev.append("te")
+        elif k == "returned":
+            ev.append("rt,%s,%s" % (a[0], a[1]))
+    return procs
+
+
+TOKLOOP_STATS = dict(processes=0, steps=0, exits=0)
+
+
 def replay_tokens(trace, ext_pipe=0):
-    """Replay every jobserver group through the Lean acceptor; returns list of (group, answer, nevents)."""
+    """Replay every jobserver group through the Lean acceptor `Tokens`, and every single process's primitives through
+    `TokLoop` (tokloop-replay: the per-process token counter model of Props/C09, compound step by compound step);
+    returns list of (group or process, answer, nevents)."""
     out = []
     groups = token_groups(trace)
     reqs, keys = [], []
     for g, ev in groups.items():
         reqs.append("tokens-replay %d %s" % (ext_pipe if g == "ext" else 0, ";".join(ev) if ev else "-"))
         keys.append((g, len(ev)))
+    for pid, (kind, ev) in token_procs(trace).items():
+        reqs.append("tokloop-replay %s %s" % (kind, ";".join(ev) if ev else "-"))
+        keys.append(("process %d, per-process counter model TokLoop" % pid, 0))
+        TOKLOOP_STATS["processes"] += 1
     if reqs:
         ans = run_lines(MODEL, reqs)
         out = [(k[0], a, k[1]) for k, a in zip(keys, ans)]
+        for k, a in zip(keys, ans):
+            m = re.match(r"ok steps=(\d+) .* exited=(true|false)", a)
+            if m and str(k[0]).startswith("process"):
+                TOKLOOP_STATS["steps"] += int(m.group(1))
+                TOKLOOP_STATS["exits"] += m.group(2) == "true"
     return out
 
 
